@@ -38,10 +38,13 @@ def run_coro(c):
     raise RuntimeError('coroutine suspended unexpectedly')
 
 
-def make_config(g, **overrides):
+def make_config(g, tls=False, **overrides):
     from pysasl.hashing import BuiltinHash
+    args = FakeArgs()
+    if tls:
+        args.tls = True
     return g['Config'].from_args(
-        FakeArgs(), hash_context=BuiltinHash(hash_name='sha1', salt_len=0, rounds=1),
+        args, hash_context=BuiltinHash(hash_name='sha1', salt_len=0, rounds=1),
         cpu_subsystem=g['Subsystem'].for_asyncio(), invalid_user_sleep=0.0, **overrides)
 
 
